@@ -99,8 +99,10 @@ def make_shadow(dest, extra_files=None, repo=REPO):
     spec_dst = os.path.join(crate, "verif_spec")
     shutil.rmtree(spec_dst, ignore_errors=True)
     shutil.copytree(os.path.join(VERIF, "harness", "spec"), spec_dst)
-    # 4. generated files
-    for rel, text in (extra_files or {}).items():
+    # 4. generated files (per-run harness instantiations; always present, possibly empty)
+    files = {"verif_gen/gen_pairs.rs": "// no generated instantiations in this run\n"}
+    files.update(extra_files or {})
+    for rel, text in files.items():
         p = os.path.join(crate, rel)
         os.makedirs(os.path.dirname(p), exist_ok=True)
         with open(p, "w") as fh:
